@@ -9,7 +9,7 @@
 const char* const PROPERTY_ID = "C08";
 const size_t PROPERTY_MAXLEN = 220;
 
-void property_init() {}
+void property_init() { vf::gen::g_huge_hosts = true; }
 
 namespace {
 
